@@ -102,9 +102,11 @@ Definition chk_shape1 (o : opc) (tl tr : texp) (ob : option (ty * nat)) : bool :
 
 (* ---- the arithmetic meaning, evaluated numerically on every assignment ---- *)
 (* how a bit list is read as a number *)
-Inductive reading := RInt | RFix (i : nat).
-Definition read_list {A} (r : reading) (l : list A) : list A :=
-  match r with RInt => l | RFix i => qrepr i l end.
+(* RFix i s: a Qfixed list with i integer bits, read at a scale s bits finer
+   (value * 2^(f + s)): s zeros below the qint representation *)
+Inductive reading := RInt | RFix (i s : nat).
+Definition read_list {A} (z : A) (r : reading) (l : list A) : list A :=
+  match r with RInt => l | RFix i s => repeat z s ++ qrepr i l end.
 
 Inductive sop :=
 | SAdd (w : nat) | SSub (w : nat) | SMul (w : nat) | SModAnd (wr : nat)
@@ -152,14 +154,14 @@ Definition chk_spec1 (a : asgs) (s : sop) (rl rr ro : reading) (wout : nat)
   match ob with
   | None => false
   | Some (_, ds, outs) =>
-      let xs := values_of k (map (tt_eval m (tenv tbl)) (read_list rl (snd tl))) in
+      let xs := values_of k (map (tt_eval m (tenv tbl)) (read_list bfalse rl (snd tl))) in
       let ys := match snd tr with
                 | [] => repeat 0 k
-                | _ => values_of k (map (tt_eval m (tenv tbl)) (read_list rr (snd tr)))
+                | _ => values_of k (map (tt_eval m (tenv tbl)) (read_list bfalse rr (snd tr)))
                 end in
       let vs := map (fun xy => spec_fun s (fst xy) (snd xy)) (combine xs ys) in
       let expect := map (fun j => n_of_bits (map (fun v => N.testbit v (N.of_nat j)) vs)) (seq 0 wout) in
-      tables_equal m expect (read_list ro (impl_tables m tbl ds outs))
+      tables_equal m expect (read_list 0 ro (impl_tables m tbl ds outs))
   end.
 
 (* ---- case lists ---- *)
